@@ -46,13 +46,13 @@ RANK_TABLE = {
 
 
 def check(run, repo, tier):
-  w = World(repo)
-  r1_search_parameters(run, w)
-  r2_index_guard(run, w)
-  r3_find_eq(run, w)
-  r4_prevnext(run, w)
+  V = H.guarded_views
+  V(run, repo, r1_search_parameters)
+  V(run, repo, r2_index_guard)
+  V(run, repo, r3_find_eq)
+  V(run, repo, r4_prevnext)
   from ._extra import c14_sortkey_total_order
-  run.guard(c14_sortkey_total_order, run, w, "C14-R5")
+  V(run, repo, c14_sortkey_total_order, "C14-R5")
 
 
 def _const_int(node):
